@@ -9,8 +9,10 @@ cascade of data-dependent global replacements.  Proved end to end (both stages c
 corruption classes "garbage in the millisecond field" (`repair_ms_garbage`, for ANY fraction below one
 half) and "garbage in the day-of-year and millisecond fields" (`repair_day_ms_garbage`, fewer than 40 %,
 under three stated side conditions) and "an implausible year on some line" (`repair_year_out_of_range`, any
-number of corrupt lines); a WRONG BUT PLAUSIBLE year is covered by the correspondence check and the property's
-own oracle only, and the clause stays labelled partial.
+number of corrupt lines), and for ANY garbage (plausible years included) on fewer than ONE THIRD of the lines
+(`repair_any_garbage_third`).  What stays partial: the band between one third and 40 % when plausible-but-wrong
+years (or ms values beyond 32 bits / passes longer than 6 h) are involved, and recorded-day series with a
+half-integer median - correspondence check and the property's own oracle only.
 -/
 import PygacModel.Lemmas.TimesRepair
 import PygacModel.Lemmas.TimesDay
@@ -168,6 +170,12 @@ example : Garbled 500 false 2026 truePass garbledDays [true, true, false, true, 
     interval_cases i <;> decide +kernel +revert
   nums_eq := rfl
   year_eq := rfl
+  len_y := rfl
+  year_ok := by decide
+  good_y := by
+    intro i h1 h2 h3 _
+    have : i < 6 := h1
+    interval_cases i <;> rfl
   len_j := rfl
   len_m := rfl
   len_g := rfl
@@ -189,6 +197,69 @@ example : Garbled 500 false 2026 truePass garbledDays [true, true, false, true, 
 
 example : getTimes {} 500 2026 false (some 1025956800000) garbledDays =
     [1025956800000, 1025956800500, 1025956801000, 1025956801500, 1025956802000, 1025956802500] := by decide +kernel
+
+/-- **End-to-end repair, ANY corruption class, fewer than one third of the lines**: the corrupt lines may carry
+arbitrary (plausible) years, arbitrary day numbers and arbitrary ms values - no restriction on the ms field's
+size, on the length of the pass or on the time of year (scenario `Times.GarbledAny`: line numbers, header time and
+the first line intact; whole-number median of the recorded days).  Every returned time is within 10 s (+ 2 ms)
+of the true time.  (Together with `repair_year_out_of_range` for implausible years this covers every kind of
+garbage in the time fields; the 40 % of the property is reached by `repair_day_ms_garbage` when the years are
+intact and by `repair_ms_garbage` when the days are, too.) -/
+theorem repair_any_garbage_third (P : Rat) (sg : Bool) (nowYear : Int) (hd : Int) (r0 r : RawTimes) (good : List Bool)
+    (h : GarbledAny P sg nowYear r0 r good)
+    (hdec : (sg && decreasing r.nums) = false)
+    (hbad : 3 * good.count false < r0.nums.length)
+    (hhead : absR (passOffset P sg r0 - (hd : Rat)) ≤ 360000 - 2) :
+    (getTimes {} P nowYear sg (some hd) r).length = r0.nums.length ∧
+    ∀ i (hi : i < r0.nums.length) (h1 : i < (getTimes {} P nowYear sg (some hd) r).length),
+      absR ((((getTimes {} P nowYear sg (some hd) r)[i] : Int) : Rat)
+        - (((lineIdx sg r0.nums[i] : Int) : Rat) * P + passOffset P sg r0)) ≤ 10002 :=
+  Times.repair_any_garbage_third P sg nowYear hd r0 r good h hdec hbad hhead
+
+/-- non-vacuity: seven lines, line 4 carries the year 1999, day 12 and a garbage ms value -/
+def truePass7 : RawTimes :=
+  { nums := [1, 2, 3, 4, 5, 6, 7], year := [2002, 2002, 2002, 2002, 2002, 2002, 2002],
+    jday := [187, 187, 187, 187, 187, 187, 187],
+    msec := [43200000, 43200500, 43201000, 43201500, 43202000, 43202500, 43203000] }
+def garbledAll : RawTimes :=
+  { nums := [1, 2, 3, 4, 5, 6, 7], year := [2002, 2002, 2002, 1999, 2002, 2002, 2002],
+    jday := [187, 187, 187, 12, 187, 187, 187],
+    msec := [43200000, 43200500, 43201000, 4000000000, 43202000, 43202500, 43203000] }
+
+example : GarbledAny 500 false 2026 truePass7 garbledAll [true, true, true, false, true, true, true] where
+  clean := { n_pos := by decide, len_y := rfl, len_j := rfl, len_m := rfl, year_ok := by decide, jday_ok := by decide,
+             jday_mono := by decide +kernel, msec_first := by decide }
+  year_const := by decide
+  truth := by
+    intro i hi
+    have hi' : i < 7 := hi
+    have hl : (idealOfDay 500 false truePass7).length = 7 := by decide +kernel
+    refine ⟨by simp [truePass7]; omega, by rw [hl]; exact hi', ?_⟩
+    interval_cases i <;> decide +kernel +revert
+  nums_eq := rfl
+  len_y := rfl
+  year_ok := by decide
+  good_y := by
+    intro i h1 h2 h3 hg
+    have : i < 7 := h1
+    interval_cases i <;> first | rfl | exact absurd hg (by decide +revert)
+  len_j := rfl
+  len_m := rfl
+  len_g := rfl
+  first_good := by intro _; rfl
+  good_j := by
+    intro i h1 h2 h3 hg
+    have : i < 7 := h1
+    interval_cases i <;> first | rfl | exact absurd hg (by decide +revert)
+  good_m := by
+    intro i h1 h2 h3 hg
+    have : i < 7 := h1
+    interval_cases i <;> first | rfl | exact absurd hg (by decide +revert)
+  med_int := ⟨187, by decide +kernel⟩
+
+example : getTimes {} 500 2026 false (some 1025956800000) garbledAll =
+    [1025956800000, 1025956800500, 1025956801000, 1025956801500, 1025956802000, 1025956802500, 1025956803000] := by
+  decide +kernel
 
 /-- **End-to-end repair, corruption class "an implausible year"**: if the year field of ANY line other than the
 first lies outside 1978 .. current year - and whatever ALL other time fields of ALL other lines contain - then
